@@ -408,7 +408,8 @@ func run(raw json.RawMessage) driver.Result {
 		l := append([]string{}, in.L...)
 		str := flaghelper.NewStringSliceFlag(&l).String()
 		out := guard(func() string { r, err := parse.StringSlice(str); return outcome(coqfmt.Strs(r), err) })
-		return driver.Result{
+		direct = append(direct, fresh("parse.StringSlice", str, func() (reflect.Value, error) { r, err := parse.StringSlice(str); return reflect.ValueOf(r), err })...)
+		return driver.Result{Direct: direct,
 			Coq:  fmt.Sprintf("SliceRT %s %s %s %s", textgen.Printable(in.L...), coqfmt.Strs(in.L), coqfmt.Str(str), out),
 			Kind: "slice-roundtrip", Nontrivial: len(in.L) >= 2 && textgen.Special(in.L...),
 			Tags: []string{sizeTag("slice", len(in.L))},
@@ -420,7 +421,8 @@ func run(raw json.RawMessage) driver.Result {
 		}
 		str := flaghelper.NewStringSetFlag(&m).String()
 		out := guard(func() string { r, err := parse.StringSet(str); return outcome(setList(r), err) })
-		return driver.Result{
+		direct = append(direct, fresh("parse.StringSet", str, func() (reflect.Value, error) { r, err := parse.StringSet(str); return reflect.ValueOf(r), err })...)
+		return driver.Result{Direct: direct,
 			Coq:  fmt.Sprintf("SetRT %s %s %s %s", textgen.Printable(in.L...), coqfmt.Strs(in.L), coqfmt.Str(str), out),
 			Kind: "set-roundtrip", Nontrivial: len(in.L) >= 2 && textgen.Special(in.L...),
 			Tags: []string{sizeTag("set", len(in.L))},
@@ -467,7 +469,8 @@ func run(raw json.RawMessage) driver.Result {
 		}
 		str := flaghelper.NewMapStringStringSliceFlag(&m).String()
 		out := guard(func() string { r, err := parse.StringStringSliceMap(str); return outcome(mssList(r), err) })
-		return driver.Result{
+		direct = append(direct, fresh("parse.StringStringSliceMap", str, func() (reflect.Value, error) { r, err := parse.StringStringSliceMap(str); return reflect.ValueOf(r), err })...)
+		return driver.Result{Direct: direct,
 			Coq:  fmt.Sprintf("MssRT %s %s %s %s", textgen.Printable(all...), coqfmt.List(parts), coqfmt.Str(str), out),
 			Kind: "mss-roundtrip", Nontrivial: len(in.MM) >= 2 && textgen.Special(all...), Tags: tags,
 		}
